@@ -35,7 +35,13 @@ pub fn mkreq(kind: &str, a: u64, b: u64, seq: u64) -> Result<ClientRequest, Stri
             "history_id": id, "history_table_id": mark, "op_time": 1_700_000_000_000i64 + seq as i64, "op_user": json!(null)}});
         return serde_json::from_value(v).map_err(|e| e.to_string());
     }
-    let cfg_key = format!("d{}\u{2}g{}\u{2}t{}", a % 4, a / 4 % 2, a / 8 % 2);
+    // every third publish / removal addresses the tenant of one of the user namespaces (`ns<k>`): a namespace then is both
+    // user-created and in use
+    let cfg_key = if b % 3 == 2 {
+        format!("d{}\u{2}g{}\u{2}ns{}", a % 4, a / 4 % 2, a % 5)
+    } else {
+        format!("d{}\u{2}g{}\u{2}t{}", a % 4, a / 4 % 2, a / 8 % 2)
+    };
     let content = if b % 7 == 6 { "x".repeat(3000 + b as usize) } else { format!("content-{}", b) };
     let tbl = ["T_USER", "T_CACHE"][(a % 2) as usize];
     let cty = ["yaml", "json"][(b % 2) as usize];
@@ -229,6 +235,7 @@ pub fn run(dir: &str) {
         let store: Arc<FileStore> = factory_data.get_bean().unwrap();
         let handler: Arc<RaftDataHandler> = factory_data.get_bean().unwrap();
         let config: actix::Addr<ConfigActor> = factory_data.get_actor().unwrap();
+        let namespaces: actix::Addr<rnacos::namespace::NamespaceActor> = factory_data.get_actor().unwrap();
         // the start-up load (snapshot + log replay) runs inside StateApplyManager's `wait` futures: a request to it
         // is answered only afterwards
         let apply: actix::Addr<StateApplyManager> = factory_data.get_actor().unwrap();
@@ -396,7 +403,18 @@ pub fn run(dir: &str) {
                     tokio::time::sleep(std::time::Duration::from_millis(60)).await;
                     let la = last_applied(&apply).await;
                     let ll = store.get_last_log_index().await.map(|i| i.index).unwrap_or(0);
-                    format!("dump la={} ll={} {} {}", la, ll, config_dump(&config).await, snapshot_dump(&handler, &scratch).await)
+                    // the namespace list as served (id, name, flags): the snapshot encoder writes only a part of it
+                    let nsq = match namespaces.send(rnacos::namespace::model::NamespaceQueryReq::List).await {
+                        Ok(Ok(rnacos::namespace::model::NamespaceQueryResult::List(l))) => {
+                            // user-created namespaces only (flag bit 2): entries of namespaces that are merely in use are
+                            // derived from the other components, asynchronously
+                            let mut v: Vec<String> = l.iter().filter(|n| n.flag & 2 != 0).map(|n| format!("{}:{}", n.namespace_id, n.namespace_name)).collect();
+                            v.sort();
+                            format!("{}#{}", fnv(v.join(";").as_bytes()), v.len())
+                        }
+                        _ => "err".to_string(),
+                    };
+                    format!("dump la={} ll={} nsq={} {} {}", la, ll, nsq, config_dump(&config).await, snapshot_dump(&handler, &scratch).await)
                 }
                 ["quit"] => break,
                 _ => "bad-op".to_string(),
